@@ -171,8 +171,9 @@ class Report(object):
         ev = {"property_id": self.prop, "tier": tier(), "seed": seed(), "level": self.level,
               "coverage": cov, "assumptions": self.assumptions, "wall_s": round(wall, 1),
               "violations": len(self.violations)}
-        with open(os.path.join(EVID, self.prop + ".json"), "w") as f:
-            json.dump(ev, f, indent=1, sort_keys=True)
+        if not os.environ.get("VERIF_NOEVIDENCE"):      # (mutant trials must not overwrite the evidence of the real tree)
+            with open(os.path.join(EVID, self.prop + ".json"), "w") as f:
+                json.dump(ev, f, indent=1, sort_keys=True)
         for i, n in sorted(self.known.items()):
             f_ = self.open_ids[i]
             print("KNOWN-FINDING: property=%s %s %s (%d cases this run)" % (self.prop, i, f_["what"], n))
